@@ -60,7 +60,8 @@ def gen_history(rng, net, n):
     for _ in range(n):
         r = rng.random()
         if r < 0.45:
-            kind = rng.choice(["load", "line", "trafo", "dcline", "tap", "gen_vm", "new_load", "load_q"])
+            kind = rng.choice(["load", "line", "trafo", "dcline", "tap", "gen_vm", "new_load", "load_q", "xward", "trafo3w", "kind_off",
+                               "create_gen", "sgen"])
             if kind == "load":
                 ops.append(["edit", "load_p", int(rng.choice(list(net.load.index))), rng.randint(1, 40) / 8])
             elif kind == "load_q":
@@ -73,6 +74,17 @@ def gen_history(rng, net, n):
                 ops.append(["edit", "dcline_is", int(rng.choice(list(net.dcline.index))), rng.random() < 0.5])
             elif kind == "tap":
                 ops.append(["edit", "tap", 0, rng.randint(-2, 2)])
+            elif kind == "xward" and len(net.xward):
+                ops.append(["edit", "xward_is", int(rng.choice(list(net.xward.index))), rng.random() < 0.5])
+            elif kind == "trafo3w" and len(net.trafo3w):
+                ops.append(["edit", "trafo3w_is", int(rng.choice(list(net.trafo3w.index))), rng.random() < 0.5])
+            elif kind == "kind_off":
+                # all elements of one kind out of service (or back in service)
+                ops.append(["edit", "kind_is", rng.choice(["gen", "sgen", "load", "xward", "shunt"]), rng.random() < 0.4])
+            elif kind == "create_gen":
+                ops.append(["edit", "create_gen", int(rng.choice(list(net.bus.index[1:3]))), rng.randint(1, 8) / 4])
+            elif kind == "sgen" and len(net.sgen):
+                ops.append(["edit", "sgen_is", int(rng.choice(list(net.sgen.index))), rng.random() < 0.5])
             elif kind == "gen_vm" and len(net.gen):
                 ops.append(["edit", "gen_p", int(rng.choice(list(net.gen.index))), rng.randint(1, 16) / 4])
             else:
@@ -110,6 +122,19 @@ def apply_op(net, op):
             net.gen.at[i, "p_mw"] = v
         elif what == "new_load":
             pp.create_load(net, i, p_mw=v, q_mvar=0.0)
+        elif what == "xward_is":
+            net.xward.at[i, "in_service"] = bool(v)
+        elif what == "trafo3w_is":
+            net.trafo3w.at[i, "in_service"] = bool(v)
+        elif what == "sgen_is":
+            net.sgen.at[i, "in_service"] = bool(v)
+        elif what == "kind_is":
+            if len(net[i]):
+                net[i]["in_service"] = bool(v)
+        elif what == "create_gen":
+            vm = float(net.ext_grid.vm_pu.values[0])
+            if not (net.ext_grid.bus == i).any():      # all voltage set points of these nets are equal: no conflict at shared buses
+                pp.create_gen(net, i, p_mw=v, vm_pu=vm, min_p_mw=0., max_p_mw=10., min_q_mvar=-5., max_q_mvar=5., controllable=True)
         return None
     _, c, kw = op
     try:
@@ -210,65 +235,179 @@ def g09_guard(obj_before, fresh_after):
     return True
 
 
+K_DC = "C09-rundcpp-stale-results"
+K_OPF = "C09-opf-stale-lookups"
+_DC_UNCOMPUTED = {}
+
+
+def dc_uncomputed_columns():
+    """result columns a DC power flow does not compute (they stay NaN in a DC power flow on a new net): measured on the
+    implementation itself, once"""
+    if not _DC_UNCOMPUTED:
+        import random
+        net = N.rich_net(random.Random(11), index_gap=False, shift=0, n_dcline=1, gens=1, xward=1, trafo3w=1, ctrl_sgen=1, bb_switch=0)
+        if len(net.shunt) == 0:
+            pp.create_shunt(net, net.bus.index[2], q_mvar=-0.5, p_mw=0.)
+        _quiet(pp.rundcpp, net)
+        for k, v in net.items():
+            if k.startswith("res_") and isinstance(v, pd.DataFrame) and len(v):
+                num = v.apply(pd.to_numeric, errors="coerce")
+                if num.notna().any().any():
+                    _DC_UNCOMPUTED[k] = {c for c in num.columns if num[c].isna().all()}
+        _DC_UNCOMPUTED["_done"] = set()
+    return _DC_UNCOMPUTED
+
+
+def fresh_clone(net):
+    """what a user gets who rebuilds the net from the element tables: no result tables, all private caches as in a
+    newly created network"""
+    clone = pp.create_empty_network()
+    for k, v in net.items():
+        if not k.startswith("_") and not k.startswith("res_") and k not in ("converged", "OPF_converged"):
+            clone[k] = copy.deepcopy(v)
+    return clone
+
+
+def diff_cells(a, b, tol, only_tables_of=None):
+    """list of (table, column | structural remark) in which two result sets differ; only_tables_of: restrict to the result
+    tables this kind of calculation produces on a new net (tables left by other kinds of calculations are not its results)"""
+    out = []
+    if only_tables_of is not None:
+        a = {k: v for k, v in a.items() if k in only_tables_of}
+        b = {k: v for k, v in b.items() if k in only_tables_of}
+    if a["converged"] != b["converged"]:
+        out.append(("converged", "%r vs %r" % (a["converged"], b["converged"])))
+    for k in sorted(set(a) | set(b)):
+        if k == "converged":
+            continue
+        if k not in a or k not in b:
+            present = a.get(k) or b.get(k)
+            if present[2] is not None and np.isnan(present[2]).all():
+                continue          # a table of NaN rows on one side, no table on the other: no information either way
+            out.append((k, "table present on one side only"))
+            continue
+        ia, ca, va = a[k]
+        ib, cb, vb = b[k]
+        if ia != ib:
+            out.append((k, "index %s vs %s" % (ia[:8], ib[:8])))
+            continue
+        for c in sorted(set(ca) | set(cb)):
+            if c not in ca or c not in cb:
+                col = (va[:, ca.index(c)] if c in ca else vb[:, cb.index(c)]) if (va is not None and vb is not None) else None
+                if col is not None and np.isnan(col).all():
+                    continue
+                out.append((k, "column %s on one side only" % c))
+                continue
+            if va is None or vb is None:
+                continue
+            x, y = va[:, ca.index(c)], vb[:, cb.index(c)]
+            if not np.allclose(x, y, rtol=0, atol=tol, equal_nan=True):
+                r = int(np.argwhere(~np.isclose(x, y, rtol=0, atol=tol, equal_nan=True))[0][0])
+                out.append((k, c, "%r: %r vs %r" % (ia[r], x[r], y[r])))
+    return out
+
+
 def history_case(ctx, rng, k):
-    base = N.rich_net(rng, index_gap=False, shift=0)
-    ops = gen_history(rng, base, rng.randint(4, 12))
-    if rng.random() < 0.3:
-        # a bus that is unsupplied in the last power flow and supplied again afterwards
-        ops += [["edit", "trafo_is", 0, False], ["calc", "runpp", {}], ["edit", "trafo_is", 0, True]]
+    from vf import c08_snap as S
+    # four families of histories in turn, each on a net that has the elements the family is about
+    fam = k % 4
+    base = N.rich_net(rng, index_gap=False, shift=0, bb_switch=0,
+                      xward=rng.choice([1, 2]) if fam == 0 else rng.choice([0, 1]),
+                      trafo3w=1 if fam == 0 else rng.choice([0, 1]),
+                      gens=rng.choice([1, 2]) if fam == 1 else None,
+                      n_dcline=rng.choice([1, 2]) if fam == 2 else ((0 if (k // 4) % 2 == 0 else rng.choice([0, 1])) if fam == 1 else None),
+                      ctrl_sgen=1 if fam == 3 else rng.choice([0, 1]))
+    ops = gen_history(rng, base, rng.randint(3, 9))
+    if fam == 0:
+        # elements that have no result in the last power flow (out of service, or unsupplied because the feeder is out) and
+        # take part afterwards
+        off, on = [], []
+        for t, what in (("xward", "xward_is"), ("trafo3w", "trafo3w_is")):
+            for i in base[t].index:
+                off.append(["edit", what, int(i), False]); on.append(["edit", what, int(i), True])
+        off.append(["edit", "trafo_is", 0, False]); on.append(["edit", "trafo_is", 0, True])
+        sel = rng.sample(range(len(off)), rng.randint(1, len(off)))
+        ops += [["edit", "kind_is", "xward", True]] + [off[i] for i in sel] + [["calc", "runpp", {}]] + [on[i] for i in sel]
+    elif fam == 1:
+        # a calculation with everything in service, then all elements of one kind are switched off
+        kinds = [t for t in ("gen", "sgen", "xward", "shunt") if len(base[t])]
+        off_kinds = ["gen"] + [t for t in kinds if t != "gen" and rng.random() < 0.3]
+        ops += [["edit", "kind_is", t, True] for t in kinds] + [["calc", "runpp", {}]] + [["edit", "kind_is", t, False] for t in off_kinds]
+    elif fam == 2:
+        # a calculation that fails half-way (short circuit without sc data for the dcline gens, unknown algorithm, ...),
+        # then the user adds an element, then the next calculation
+        ops += [["calc", rng.choice(["3ph", "runpp", "rundcpp"]), {}]] * rng.randint(0, 1) + [["calc", "sc", {}], ["edit", "create_gen", int(base.bus.index[rng.choice([1, 2])]), 1.25]]
+    else:
+        ops += [["calc", "runopp", {}], ["edit", "sgen_is", int(base.sgen.index[0]), False]]
     obj = copy.deepcopy(base)
     outcomes = [apply_op(obj, op) for op in ops]
     ncalc = sum(1 for o in ops if o[0] == "calc")
-    edit_between = any(ops[i][0] == "edit" and any(o[0] == "calc" for o in ops[:i]) and any(o[0] == "calc" for o in ops[i:]) for i in range(len(ops)))
+    edit_between = any(ops[i][0] == "edit" and any(o[0] == "calc" for o in ops[:i]) for i in range(len(ops)))
     case = {"net": pp.to_json(base), "ops": ops}
-    for kind in ("runpp", rng.choice(["rundcpp", "runopp", "runpp_results"])):
-        o1, o2, o3 = copy.deepcopy(obj), copy.deepcopy(obj), rebuilt_clone(obj)
-        # the object itself is used for the first kind only (it is consumed by the calculation)
-        r1 = final_calc(o1, kind)
-        r2 = final_calc(o2, kind)
-        r3 = final_calc(o3, kind)
-        a, b, c = results_of(o1), results_of(o2), results_of(o3)
-        d = same_results(a, b)
+    last = [(o, rr) for o, rr in zip(ops, outcomes) if o[0] == "calc" and o[1] in ("runpp", "rundcpp", "runopp", "sc", "3ph")]
+    # "previous results belong to a nearby switching state": they come from a converged AC power flow
+    prev_is_pf = bool(last) and last[-1][0][1] == "runpp" and last[-1][1] == "ok" and "max_iteration" not in last[-1][0][2]
+    had_ctrl_lookup = any(str(key).endswith("_controllable") for key in (obj.get("_pd2ppc_lookups") or {}))
+    dc_cols = dc_uncomputed_columns()
+    for kind in ("runpp", "rundcpp", "runpp_results", "runopp"):
+        if kind == "runopp" and rng.random() < 0.5:
+            continue
+        o1, o2, o3, o4 = copy.deepcopy(obj), copy.deepcopy(obj), rebuilt_clone(obj), fresh_clone(obj)
+        s_before = S.snapshot(o1)
+        r1, r2, r3 = final_calc(o1, kind), final_calc(o2, kind), final_calc(o3, kind)
+        r4 = final_calc(o4, "runpp" if kind == "runpp_results" else kind)
+        a, b, c, f = results_of(o1), results_of(o2), results_of(o3), results_of(o4)
+        fin = dict(case, final=kind)
+        # the calculation itself must not touch the element tables (a user row silently removed would also change results)
+        dd = [x for x in S.diff(s_before, S.snapshot(o1)) if x[1] not in ("dtype_changed",)]
+        if dd:
+            ctx.violation("spec", "%s after the history changes the element tables: %s" % (kind, dd[:3]), fin)
+        d = diff_cells(a, b, 1e-8)
         if d or r1 != r2:
-            ctx.violation("spec", "%s on two deep copies of the same object differs: %s (%s/%s)" % (kind, d, r1, r2), dict(case, final=kind))
-        d = same_results(a, c)
+            ctx.violation("spec", "%s on two deep copies of the same object differs: %s (%s/%s)" % (kind, d[:3], r1, r2), fin)
+        d = diff_cells(a, c, 1e-8 if kind != "runopp" else 1e-4)
+        opf_stale = False
+        if kind == "runopp" and (d or r1 != r3):
+            # is the deviation caused by exactly the lookups of the previous calculation (which runopp does not clear)?
+            # -> the same object with ONLY net._pd2ppc_lookups reset behaves like the rebuilt net
+            o5 = copy.deepcopy(obj)
+            o5["_pd2ppc_lookups"] = copy.deepcopy(pp.create_empty_network()["_pd2ppc_lookups"])
+            r5 = final_calc(o5, kind)
+            opf_stale = r5 == r3 and not diff_cells(results_of(o5), c, 1e-4)
         if d or r1 != r3:
-            ctx.violation("spec", "%s after the history differs from the same calculation on a net rebuilt from the user-visible "
-                          "state (only private caches differ): %s (%s/%s)" % (kind, d, r1, r3), dict(case, final=kind))
+            ctx.violation(K_OPF if opf_stale else "spec",
+                          "%s after the history differs from the same calculation on a net rebuilt from the user-visible state (only "
+                          "private caches differ): %s (%s/%s)" % (kind, d[:3], r1, r3), fin)
+        # against the net rebuilt from the element tables alone
+        if kind == "runpp_results":
+            if r4 == "ok" and prev_is_pf:
+                d = diff_cells(a, f, 1e-5, only_tables_of=f) if r1 == "ok" else []
+                if r1 != "ok" or d:
+                    ctx.violation("spec", "runpp(init='results') %s although the fresh power flow converges%s" % (
+                        "fails (%s)" % r1 if r1 != "ok" else "gives other results: %s" % (d[:3],),
+                        " (previous res_bus has NaN at a bus that is supplied now)" if not g09_guard(obj, o4) else ""), fin)
+                ctx.count("results_start_%s" % ("ok" if r1 == "ok" and not d else "fails"))
+        else:
+            d = diff_cells(a, f, 1e-8 if kind != "runopp" else 1e-4, only_tables_of=f) if (r1 == "ok" and r4 == "ok") else []
+            if r1 != r4 or d:
+                if kind == "rundcpp" and r1 == r4 and d and all(
+                        (len(x) == 3 and x[1] in dc_cols.get(x[0], ())) or (len(x) == 2 and x[1].endswith("on one side only") and
+                                                                          x[1].startswith("column ") and
+                                                                          x[1].split()[1] not in f[x[0]][1]) for x in d):
+                    kd = K_DC      # only columns that a DC power flow never computes: values of an earlier calculation stay
+                elif opf_stale:
+                    kd = K_OPF
+                else:
+                    kd = "spec"
+                ctx.violation(kd, "%s after the history differs from the same calculation on a net rebuilt from the element tables: "
+                              "%s (%s/%s)" % (kind, d[:3], r1, r4), fin)
         ctx.count("final_%s_%s" % (kind, r1))
     # the object itself vs its deep copy (identity-based state would show here)
     twin = copy.deepcopy(obj)
-    before = copy.deepcopy(obj)
     ra, rb = final_calc(obj, "runpp"), final_calc(twin, "runpp")
-    d = same_results(results_of(obj), results_of(twin))
+    d = diff_cells(results_of(obj), results_of(twin), 1e-8)
     if d or ra != rb:
-        ctx.violation("spec", "runpp on the object differs from runpp on its deep copy: %s (%s/%s)" % (d, ra, rb), dict(case, final="runpp"))
-    # init="results" must reach the fresh solution whenever the fresh calculation converges
-    fresh = rebuilt_clone(before)
-    for t in list(fresh.keys()):
-        if t.startswith("res_"):
-            del fresh[t]
-    fresh = pp.from_json_string(pp.to_json(fresh))
-    rf = final_calc(fresh, "runpp")
-    warm = copy.deepcopy(before)
-    rw = final_calc(warm, "runpp_results")
-    # "previous results belong to a nearby switching state": the result tables must come from an AC power flow with the
-    # same angle convention (a runopp/rundcpp/short-circuit in between writes other kinds of values into res_bus)
-    last = [(o, r) for o, r in zip(ops, outcomes) if o[0] == "calc" and o[1] in ("runpp", "rundcpp", "runopp")]
-    prev_is_pf = bool(last) and last[-1][0][1] == "runpp" and last[-1][1] == "ok"
-    if rf == "ok" and prev_is_pf:
-        bad = None
-        if rw != "ok":
-            bad = "runpp(init='results') fails (%s) although the fresh power flow converges" % rw
-        else:
-            va, vb = warm.res_bus[["vm_pu", "va_degree"]].to_numpy(), fresh.res_bus[["vm_pu", "va_degree"]].to_numpy()
-            if not np.allclose(va, vb, rtol=0, atol=1e-5, equal_nan=True):
-                bad = "runpp(init='results') converges to a different solution than the fresh power flow"
-        if bad:
-            ctx.violation("spec", bad + (" (previous res_bus has NaN at a bus that is supplied now)" if not g09_guard(before, fresh) else ""),
-                          dict(case, final="runpp_results"))
-        ctx.count("results_start_%s" % ("ok" if not bad else "fails"))
-        ctx.count("g09_%s" % g09_guard(before, fresh))
+        ctx.violation("spec", "runpp on the object differs from runpp on its deep copy: %s (%s/%s)" % (d[:3], ra, rb), dict(case, final="runpp"))
     ctx.case({"ops": ops, "outcomes": outcomes}, nontrivial=ncalc >= 2 and edit_between,
              sample={"ops": ops, "outcomes": outcomes} if k < 2 else None)
     ctx.count("histories")
@@ -439,7 +578,7 @@ def run(ctx):
                 ctx.disagreement("fields read before written during %s: impl %s / model %s" % (kind, obs, sorted(set(m))), {"kind": kind})
             elif out != "ok" and not set(obs) <= set(m):
                 ctx.disagreement("fields read before written during failing %s: impl %s not within model %s" % (kind, obs, sorted(set(m))), {"kind": kind})
-    for k in range(ctx.n(14, 400)):
+    for k in range(ctx.n(16, 400)):
         history_case(ctx, rng, k)
 
 
